@@ -290,15 +290,41 @@ def run_case(case) -> Outcome:  # noqa: C901, PLR0912, PLR0915
             await asyncio.get_running_loop().create_future()
         return r
 
+    spawns = bool(case.get("spawns")) and is_async_orig and bool(case["nest"]) and outcome["kind"] != "cancelled"
+    release: dict = {}
+
+    async def _sbody(loc):
+        """an async original that starts a background task with ctx.spawn and returns without waiting for it (the task
+        belongs to the CALLER's scope): the decorated call must return just as promptly"""
+        r = None
+        err = None
+        try:
+            r = _body(loc)
+        except BaseException as exc:  # noqa: BLE001 - re-raised below, after the task has been started
+            err = exc
+        ev = asyncio.Event()
+        release.setdefault("events", []).append(ev)
+
+        async def background():
+            await ev.wait()
+            return "background-done"
+
+        seen["spawned"] = ctx.spawn(background)
+        if err is not None:
+            raise err
+        return r
+
     params = render_sig(sig, method)
     kw = "async def" if is_async_orig else "def"
     ns: dict = {"_body": _body}
+    if spawns:
+        ns["_body"] = _sbody
     if outcome["kind"] == "cancelled":
         ns["_body"] = _abody
     has_doc = not case.get("nodoc")
     want_doc = "doc of target" if has_doc else None  # a function without a docstring must stay without one
     docline = "'doc of target'" if has_doc else "pass"
-    call_body = "await _body(locals())" if outcome["kind"] == "cancelled" else "_body(locals())"
+    call_body = "await _body(locals())" if (outcome["kind"] == "cancelled" or spawns) else "_body(locals())"
     if method:
         src = f"class Holder:\n    {kw} target({params}):\n        {docline}\n        return {call_body}\n"
     else:
@@ -360,6 +386,9 @@ def run_case(case) -> Outcome:  # noqa: C901, PLR0912, PLR0915
 
             Sub = type("Sub", (Holder,), {"target": target})
             sub_obj = Sub()
+        elif receiver == "falsy":
+            # an instance that is falsy (a container-like object that happens to be empty) is a receiver like any other
+            obj = type("EmptyHolder", (Holder,), {"__len__": lambda self: 0})()
     # ---------------------------------------------------------------- metadata
     def check_meta(w, where):
         for attr, want in (("__name__", "target"), ("__doc__", want_doc)):
@@ -436,6 +465,16 @@ def run_case(case) -> Outcome:  # noqa: C901, PLR0912, PLR0915
                             break
                     t.cancel()
                     r = await t
+                elif spawns:
+                    # the call must return although the task it started is still running (released only afterwards)
+                    call_task = loop.create_task(r)
+                    done, _pending = await asyncio.wait({call_task}, timeout=1.0)
+                    obs["returned_before_release"] = bool(done)
+                    for ev in release.get("events", []):  # also those of an earlier (warm-up) call
+                        ev.set()
+                    r = await call_task
+                    if seen.get("spawned") is not None:
+                        obs["background"] = await seen["spawned"]
                 elif not sync_dec:
                     r = await r
                 obs["result"] = ("ret", r)
@@ -443,6 +482,8 @@ def run_case(case) -> Outcome:  # noqa: C901, PLR0912, PLR0915
                 if isinstance(exc, (KeyboardInterrupt, SystemExit)):
                     raise
                 obs["result"] = ("exc", exc)
+            for ev in release.get("events", []):
+                ev.set()
             obs["fp_after"] = fingerprint(labels)
 
         async def nested(level):
@@ -492,6 +533,7 @@ def run_case(case) -> Outcome:  # noqa: C901, PLR0912, PLR0915
             hb["ticks"] = 0
             seen.clear()
             obs.clear()
+            release.clear()
             # fresh argument objects per round (one-shot iterators are consumed by the function)
             args = [make_value(a) for a in case["call"]["args"]]
             kwargs = {_nm(sig, k): make_value(v) for k, v in case["call"]["kwargs"].items()}
@@ -549,6 +591,12 @@ def run_case(case) -> Outcome:  # noqa: C901, PLR0912, PLR0915
             out.violate("context", f"C18.context/caller-state-not-visible/{tag}", f"{diff}")
         if seen.get("fp_inner") != ("unknown", "A(v: 99)"):
             out.violate("context", f"C18.context/own-update-not-visible-inside/{tag}", f"{seen.get('fp_inner')}")
+    if spawns and "locals" in seen:
+        if obs.get("returned_before_release") is False:
+            out.violate("transparent", f"C18.transparent/call-waits-for-a-task-the-function-spawned/{tag}", "the decorated call did not return within 1 s while the task started by the function was still running")
+        classes_extra = ["function-spawns-a-task"]
+    else:
+        classes_extra = []
     if obs.get("fp_after") != obs.get("fp_before"):
         out.violate("context", f"C18.context/leaked-back-to-caller/{tag}", f"{obs.get('fp_before')} -> {obs.get('fp_after')}")
     # traced: arguments and outcome recorded in a scope named after the function
@@ -581,7 +629,7 @@ def run_case(case) -> Outcome:  # noqa: C901, PLR0912, PLR0915
         started = [r for r in captured if "Started" in str(r.msg) and "[target]" in str(r.msg)]
         if not started:
             out.violate("traced", f"C18.traced/no-scope-named-after-function/{tag}", f"{[str(r.msg)[:80] for r in captured][:6]}")
-    classes = [dec.split("_")[0]]
+    classes = [dec.split("_")[0], *classes_extra]
     if method:
         classes.append("method")
     if kwargs:
@@ -733,7 +781,7 @@ def strategy(tier):
                     names[c] = alt
         if names:
             sig["names"] = names
-        receiver = draw(st.sampled_from(["plain", "plain", "copy", "super"])) if form in ("method", "unbound") else "plain"
+        receiver = draw(st.sampled_from(["plain", "plain", "copy", "super", "falsy"])) if form in ("method", "unbound") else "plain"
         return {
             "dec": dec,
             "form": form,
@@ -743,6 +791,7 @@ def strategy(tier):
             "outcome": outcome,
             "nest": nest,
             "nodoc": draw(st.integers(0, 5)) == 0,
+            "spawns": draw(st.integers(0, 2)) == 0,
             "executor": draw(st.sampled_from(["default", "default", "explicit"])) if dec in ("asynchronous_executor",) else "default",
         }
 
